@@ -114,10 +114,73 @@ type TermCtx struct {
 	True  *Term
 	False *Term
 	ufs   map[string]string // UF name -> declaration
+	// hashConsts: for injective hash models, digest constant -> (function, input length, input term)
+	hashConsts map[string]hashConstRec
+}
+
+type hashConstRec struct {
+	fn   string
+	data []byte // the concrete input
+}
+
+// flatten lists the pieces of a (possibly nested) concatenation, most significant first.
+func (c *TermCtx) flatten(t *Term, out []*Term) []*Term {
+	if t.Op == OConcat {
+		out = c.flatten(t.Args[0], out)
+		return c.flatten(t.Args[1], out)
+	}
+	return append(out, t)
+}
+
+// eqSegments builds the conjunction of piecewise equalities of two segment lists of equal total width.
+func (c *TermCtx) eqSegments(fa, fb []*Term) *Term {
+	acc := c.True
+	i, j := 0, 0
+	var pa, pb *Term
+	for {
+		if pa == nil {
+			if i >= len(fa) {
+				break
+			}
+			pa = fa[i]
+			i++
+		}
+		if pb == nil {
+			if j >= len(fb) {
+				break
+			}
+			pb = fb[j]
+			j++
+		}
+		wa, wb := pa.S.W, pb.S.W
+		switch {
+		case wa == wb:
+			acc = c.And(acc, c.Eq(pa, pb))
+			pa, pb = nil, nil
+		case wa > wb:
+			acc = c.And(acc, c.Eq(c.Extract(pa, wa-1, wa-wb), pb))
+			pa, pb = c.Extract(pa, wa-wb-1, 0), nil
+		default:
+			acc = c.And(acc, c.Eq(pa, c.Extract(pb, wb-1, wb-wa)))
+			pa, pb = nil, c.Extract(pb, wb-wa-1, 0)
+		}
+		if acc.IsConst() && acc.Val == 0 {
+			return c.False
+		}
+	}
+	return acc
+}
+
+func isHashApp(t *Term) bool { return t.Op == OApply && strings.HasPrefix(t.Name, "H_") }
+
+// hashFnLen splits "H_<fn>_<n>" into fn and n.
+func hashFnLen(name string) (string, string) {
+	i := strings.LastIndex(name, "_")
+	return name[2:i], name[i+1:]
 }
 
 func NewTermCtx() *TermCtx {
-	c := &TermCtx{tab: map[string]*Term{}, ufs: map[string]string{}}
+	c := &TermCtx{tab: map[string]*Term{}, ufs: map[string]string{}, hashConsts: map[string]hashConstRec{}}
 	c.True = c.intern(&Term{Op: OConst, S: BoolSort, Val: 1})
 	c.False = c.intern(&Term{Op: OConst, S: BoolSort, Val: 0})
 	return c
@@ -321,7 +384,37 @@ func (c *TermCtx) Eq(a, b *Term) *Term {
 			return c.Not(a)
 		}
 	}
-	// byte-wise split of concat vs const helps nothing; keep as is
+	if a.S.K == SBV {
+		// injective hash model: H(x) = H(y) <=> x = y; digests of different-length inputs differ
+		if isHashApp(a) && isHashApp(b) {
+			fa, la := hashFnLen(a.Name)
+			fb, lb := hashFnLen(b.Name)
+			if fa == fb {
+				if la != lb {
+					return c.False
+				}
+				return c.Eq(a.Args[0], b.Args[0])
+			}
+		}
+		if isHashApp(b) && a.IsConst() {
+			a, b = b, a
+		}
+		if isHashApp(a) && b.IsConst() {
+			if rec, ok := c.hashConsts[constBig(b).String()]; ok {
+				fa, la := hashFnLen(a.Name)
+				if fa == rec.fn {
+					if la != fmt.Sprint(len(rec.data)) || len(rec.data) == 0 {
+						return c.False
+					}
+					return c.Eq(a.Args[0], c.BVConstBig(8*len(rec.data), new(big.Int).SetBytes(rec.data)))
+				}
+			}
+		}
+		// equalities over concatenations: align the two segment lists piece by piece
+		if a.Op == OConcat || b.Op == OConcat {
+			return c.eqSegments(c.flatten(a, nil), c.flatten(b, nil))
+		}
+	}
 	if a.ID > b.ID {
 		a, b = b, a
 	}
